@@ -41,6 +41,7 @@ type propConf struct {
 	raceAlarms   bool // property quantifies over schedules: race report = violation
 	memGiB       int  // ulimit -v for children, 0 = none
 	race         bool // build the monitor with the race detector
+	raceKinds    string // with race=false: case kinds that still run under a race-detector build
 }
 
 // The race detector is on for every property whose statement quantifies over
@@ -51,26 +52,26 @@ type propConf struct {
 // reader's 512 KiB buffers cost ~7× (measured), so these monitors are built
 // without -race (checkptr stays on) and explore ~7× more histories instead.
 var props = map[string]propConf{
-	"C01": {"exploration", 16, 16, 4, 10 * time.Minute, 60 * time.Minute, true, 0, true},
-	"C02": {"exploration", 16, 16, 2, 10 * time.Minute, 60 * time.Minute, false, 0, true},
-	"C03": {"exploration", 16, 16, 2, 10 * time.Minute, 60 * time.Minute, false, 0, true},
-	"C04": {"exploration", 16, 16, 4, 10 * time.Minute, 60 * time.Minute, true, 0, true},
-	"C05": {"exploration", 8, 8, 8, 10 * time.Minute, 60 * time.Minute, true, 0, true},
-	"C06": {"exploration", 16, 16, 2, 10 * time.Minute, 60 * time.Minute, false, 0, true},
-	"C07": {"exploration", 16, 16, 2, 10 * time.Minute, 60 * time.Minute, false, 0, true},
-	"C08": {"exploration", 8, 8, 0, 10 * time.Minute, 60 * time.Minute, true, 0, true},
-	"C09": {"exploration", 16, 16, 2, 10 * time.Minute, 60 * time.Minute, false, 0, false},
-	"C10": {"exploration", 16, 16, 2, 10 * time.Minute, 60 * time.Minute, false, 0, true},
-	"C11": {"exploration", 16, 16, 2, 15 * time.Minute, 90 * time.Minute, false, 6, true},
-	"C12": {"exploration", 8, 8, 4, 10 * time.Minute, 60 * time.Minute, true, 0, true},
-	"C13": {"exploration", 8, 8, 4, 10 * time.Minute, 60 * time.Minute, true, 0, true},
-	"C14": {"exploration", 16, 16, 2, 10 * time.Minute, 60 * time.Minute, false, 0, false},
-	"C15": {"exploration", 16, 16, 2, 10 * time.Minute, 60 * time.Minute, false, 0, false},
-	"C16": {"exploration", 16, 16, 2, 10 * time.Minute, 60 * time.Minute, false, 0, false},
-	"C17": {"fault_enumeration", 16, 16, 2, 10 * time.Minute, 60 * time.Minute, false, 0, false},
-	"C18": {"fault_enumeration", 16, 16, 2, 10 * time.Minute, 60 * time.Minute, false, 0, true},
-	"C19": {"exploration", 8, 8, 4, 10 * time.Minute, 60 * time.Minute, false, 0, false},
-	"C20": {"exploration", 16, 16, 2, 10 * time.Minute, 60 * time.Minute, false, 0, true},
+	"C01": {"exploration", 16, 16, 4, 10 * time.Minute, 60 * time.Minute, true, 0, true, ""},
+	"C02": {"exploration", 16, 16, 2, 10 * time.Minute, 60 * time.Minute, false, 0, true, ""},
+	"C03": {"exploration", 16, 16, 2, 10 * time.Minute, 60 * time.Minute, false, 0, true, ""},
+	"C04": {"exploration", 16, 16, 4, 10 * time.Minute, 60 * time.Minute, true, 0, true, ""},
+	"C05": {"exploration", 8, 8, 8, 10 * time.Minute, 60 * time.Minute, true, 0, true, ""},
+	"C06": {"exploration", 16, 16, 2, 10 * time.Minute, 60 * time.Minute, false, 0, true, ""},
+	"C07": {"exploration", 16, 16, 2, 10 * time.Minute, 60 * time.Minute, false, 0, true, ""},
+	"C08": {"exploration", 8, 8, 0, 10 * time.Minute, 60 * time.Minute, true, 0, true, ""},
+	"C09": {"exploration", 16, 16, 2, 10 * time.Minute, 60 * time.Minute, false, 0, false, ""},
+	"C10": {"exploration", 16, 16, 2, 10 * time.Minute, 60 * time.Minute, false, 0, true, ""},
+	"C11": {"exploration", 16, 16, 2, 15 * time.Minute, 90 * time.Minute, false, 6, true, ""},
+	"C12": {"exploration", 8, 8, 4, 10 * time.Minute, 60 * time.Minute, true, 0, false, "stress"},
+	"C13": {"exploration", 8, 8, 4, 10 * time.Minute, 60 * time.Minute, true, 0, false, "stress"},
+	"C14": {"exploration", 16, 16, 2, 10 * time.Minute, 60 * time.Minute, false, 0, false, ""},
+	"C15": {"exploration", 16, 16, 2, 10 * time.Minute, 60 * time.Minute, false, 0, false, ""},
+	"C16": {"exploration", 16, 16, 2, 10 * time.Minute, 60 * time.Minute, false, 0, false, ""},
+	"C17": {"fault_enumeration", 16, 16, 2, 10 * time.Minute, 60 * time.Minute, false, 0, false, ""},
+	"C18": {"fault_enumeration", 16, 16, 2, 10 * time.Minute, 60 * time.Minute, false, 0, true, ""},
+	"C19": {"exploration", 8, 8, 4, 10 * time.Minute, 60 * time.Minute, false, 0, false, ""},
+	"C20": {"exploration", 16, 16, 2, 10 * time.Minute, 60 * time.Minute, false, 0, true, ""},
 }
 
 type finding struct {
@@ -167,16 +168,35 @@ func main() {
 		timedOut bool
 		crash    *rt.Violation
 	}
-	outs := make([]childOut, n)
+	// Case kinds listed in raceKinds run in extra children built with the race
+	// detector; everything else runs in the (much faster) plain build.
+	nrace := 0
+	var skip []string
+	raceBin := monBin + "-race"
+	if conf.raceKinds != "" && !conf.race {
+		nrace = 2
+		skip = []string{"--skip-kinds", conf.raceKinds}
+		if err := buildMonitor(raceBin, *overlay, true); err != nil {
+			fmt.Printf("BUILD-FAILED property=%s\n%s\n", id, err)
+			os.Exit(2)
+		}
+	}
+	outs := make([]childOut, n+nrace)
 	var wg sync.WaitGroup
-	for b := 0; b < n; b++ {
+	for b := 0; b < n+nrace; b++ {
 		wg.Add(1)
 		go func(b int) {
 			defer wg.Done()
-			res, timedOut, crash := runChild(monBin, id, *tier, seed, b, n, runDir, conf, timeout)
+			run := func(to time.Duration) (*rt.Result, bool, *rt.Violation) {
+				if b >= n {
+					return runChild(raceBin, id, *tier, seed, b-n, nrace, filepath.Join(runDir, "race"), conf, to, "--only-kinds", conf.raceKinds)
+				}
+				return runChild(monBin, id, *tier, seed, b, n, runDir, conf, to, skip...)
+			}
+			res, timedOut, crash := run(timeout)
 			if timedOut {
 				// One retry with a larger allowance, in a fresh process.
-				res, timedOut, crash = runChild(monBin, id, *tier, seed, b, n, runDir, conf, 3*timeout)
+				res, timedOut, crash = run(3 * timeout)
 			}
 			outs[b] = childOut{b, res, timedOut, crash}
 		}(b)
@@ -223,7 +243,7 @@ func main() {
 	}
 
 	// race detector reports
-	races := parseRaceLogs(runDir)
+	races := append(parseRaceLogs(runDir), parseRaceLogs(filepath.Join(runDir, "race"))...)
 	raceCounted := 0
 	var raceSamples []string
 	for _, r := range races {
@@ -399,13 +419,14 @@ func childCmd(ctx context.Context, monBin, runDir string, conf propConf, tag str
 	return cmd, out
 }
 
-func runChild(monBin, id, tier string, seed uint64, batch, n int, runDir string, conf propConf, timeout time.Duration) (*rt.Result, bool, *rt.Violation) {
+func runChild(monBin, id, tier string, seed uint64, batch, n int, runDir string, conf propConf, timeout time.Duration, extra ...string) (*rt.Result, bool, *rt.Violation) {
+	os.MkdirAll(runDir, 0o755)
 	ctx, cancel := context.WithTimeout(context.Background(), timeout)
 	defer cancel()
 	tag := strconv.Itoa(batch)
 	os.Remove(filepath.Join(runDir, "result."+tag+".json"))
 	cmd, out := childCmd(ctx, monBin, runDir, conf, tag,
-		id, "--tier", tier, "--seed", strconv.FormatUint(seed, 10), "--batch", tag, "--nbatches", strconv.Itoa(n), "--out", runDir)
+		append([]string{id, "--tier", tier, "--seed", strconv.FormatUint(seed, 10), "--batch", tag, "--nbatches", strconv.Itoa(n), "--out", runDir}, extra...)...)
 	err := cmd.Run()
 	out.Close()
 	os.RemoveAll(filepath.Join(runDir, "tmp-"+tag))
